@@ -56,6 +56,7 @@ class Engine:
         self.notes = []
         self.uf_mode = False
         self.records = {}
+        self.allow_hash = False
 
     def fresh_name(self, base):
         self.nfresh += 1
@@ -110,6 +111,8 @@ class Engine:
         n = len(self.decisions)
         if n < len(self.prefix):
             d = self.prefix[n]
+            if isinstance(d, tuple):
+                raise Abort('replay prefix misaligned (value entry where a branch was expected)')
             self.decisions.append(d)
             self.pc.append(zc if d else z3.Not(zc))   # (redundant for implied decisions, harmless)
             return d
@@ -629,6 +632,10 @@ class Sym(numbers.Number):
     def __hash__(self):
         if Sym.HASHTRACE is not None:
             Sym.HASHTRACE.append(self.z)
+        elif not ENG.allow_hash:
+            # a constant hash is only sound when every key of the container is symbolic; a mix of
+            # concrete and symbolic keys would never be compared.  Harnesses opt in explicitly.
+            raise Unsupported('symbolic value hashed into a container (harness must concretise it or opt in)')
         return 0
 
     def __bool__(self):
@@ -660,12 +667,20 @@ class Sym(numbers.Number):
         if z3.is_int_value(zs):
             return zs.as_long()
         for _ in range(limit):
-            r, s = ENG.check()
-            if r != 'sat':
-                raise Abort('concretize: %s' % r)
-            v = s.model().eval(self.z, model_completion=True)
-            if ENG.branch(self.z == v):
-                return v.as_long()
+            n = len(ENG.decisions)
+            if n < len(ENG.prefix) and isinstance(ENG.prefix[n], tuple):
+                # replay: candidate value recorded on the original run (solver models are not
+                # guaranteed to be reproducible, the exploration tree must be)
+                val = ENG.prefix[n][1]
+                ENG.decisions.append(ENG.prefix[n])
+            else:
+                r, s = ENG.check()
+                if r != 'sat':
+                    raise Abort('concretize: %s' % r)
+                val = s.model().eval(self.z, model_completion=True).as_long()
+                ENG.decisions.append(('val', val))
+            if ENG.branch(self.z == val):
+                return val
         raise Abort('concretize: more than %d values' % limit)
 
     # ---- rounding
@@ -848,6 +863,17 @@ def _meta_div(a, b):
     elif 'mono' in mb and isinstance(a, Sym) and 'fact' not in ma:
         out['fact'] = (_mono_mul((Fraction(1), {}), mb['mono'], -1), a, 1)
     return out or None
+
+
+class allow_hash:
+    """opt-in: all keys of the hash containers met inside this block are symbolic"""
+
+    def __enter__(self):
+        self.prev = ENG.allow_hash
+        ENG.allow_hash = True
+
+    def __exit__(self, *a):
+        ENG.allow_hash = self.prev
 
 
 def Int(name):
